@@ -30,23 +30,30 @@ CELL = {0: '0', 1: '1'}
 def gen_case(rng):
   inst = se.gen_instance(rng, 'quick', max_admitted=6, theme='default')
   ids = inst['geos']
-  kind = rng.choice(['none', 'subset', 'equal', 'superset_ok', 'superset_bad', 'equal'])
+  kind = rng.choice(['none', 'subset', 'equal', 'superset_ok', 'superset_bad', 'equal', 'mixed_ok', 'mixed_bad'])
   codes = [c for c in se.CLS_CODE]
   if kind == 'none':
     elig = None
   else:
     elig = {g: list(rng.choice(codes)) for g in ids}
-    if kind == 'subset' and len(ids) > 1:
+    if kind in ('subset', 'mixed_ok', 'mixed_bad') and len(ids) > 1:
       for g in rng.sample(ids, rng.randint(1, len(ids) - 1)):
         del elig[g]
-    if kind == 'superset_ok':
+    if kind in ('superset_ok', 'mixed_ok'):
       elig['ghost1'] = list(rng.choice([(1, 1, 1), (0, 0, 1), (1, 0, 1), (0, 1, 1)]))
       if rng.random() < 0.5:
         elig['ghost2'] = [1, 1, 1]
-    if kind == 'superset_bad':
+    if kind in ('superset_bad', 'mixed_bad'):
       elig['ghost1'] = list(rng.choice([(1, 1, 0), (1, 0, 0), (0, 1, 0)]))
   inst['elig'] = elig
   inst['elig_kind'] = kind
+  sign = rng.choice(['pos', 'pos', 'pos', 'mixed', 'neg'])
+  if sign != 'pos':
+    # net-change style metrics: negative values, possibly a negative grand total (keeps integer values)
+    vals = [r[2] for r in inst['rows']]
+    k = int(sorted(vals)[len(vals) // 2]) if sign == 'mixed' else int(max(vals)) + rng.randint(1, 50)
+    inst['rows'] = [[g, d, v - k] for g, d, v in inst['rows']]
+  inst['sign'] = sign
   inst['id_type'] = 'int' if all(g.isdigit() and str(int(g)) == g for g in ids) and rng.random() < 0.5 else 'str'
   return inst
 
@@ -272,7 +279,7 @@ def run(out, tier, model_ok=True):
     ml, q = model_out.get(id(c), (None, None))
     check_case_with_plan(out, c, ml, q if q is not None else plan_queries(core.rng_for(PROP, 'queries2'), c))
   out.rule = (f'{n} generated long-format frames (1-6 geos, shuffled rows, int/str IDs, missing cells, duplicate rows) x eligibility tables '
-              '(none / subset / equal / superset with excludable ghosts / superset with a non-excludable ghost); per case: canonical table '
+              '(none / subset / equal / superset with excludable ghosts / superset with a non-excludable ghost / neither subset nor superset), positive, mixed-sign and all-negative responses; per case: canonical table '
               'laws, shares, reconciliation accept/reject, assignable set, three geo-index installations in a row (re-orderings of the '
               'same set included) with aggregates over random index subsets, rejection of a non-assignable index, truncation to the most recent n dates followed by another installation and aggregate; compared with the Lean '
               'model; non-trivial/distinct by (eligibility kind, ID dtype, geo order, number of dates)')
